@@ -26,6 +26,8 @@ type proposalStream struct {
 	stateMachine       ProposalStateMachine
 	nextSequenceNumber uint64
 	started            bool
+	// delivered is set once the proposal has been handed to the outputs; later messages are discarded
+	delivered bool
 }
 
 func newSingleProposalStream(
@@ -98,6 +100,12 @@ func (s *proposalStream) close() {
 }
 
 func (s *proposalStream) processMessages(ctx context.Context, nextMessage *consensus.StreamMessage) error {
+	// The stream is complete: a further stream fin must not hand the same proposal out again.
+	// Keep draining the input so that late duplicates do not fill it.
+	if s.delivered {
+		return nil
+	}
+
 	if s.nextSequenceNumber != nextMessage.SequenceNumber {
 		s.messages[nextMessage.SequenceNumber] = nextMessage
 		return nil
@@ -124,6 +132,7 @@ func (s *proposalStream) processMessages(ctx context.Context, nextMessage *conse
 				case <-ctx.Done():
 				case s.outputs <- state.Proposal:
 				}
+				s.delivered = true
 				return nil
 			default:
 				return fmt.Errorf("stream does not end with proposal fin")
